@@ -66,6 +66,23 @@ func replay(in *core.Lines, args []string, seed int64, sum *core.Summary) error 
 			for _, cl := range m.Clauses {
 				st.lapackClauses[m.R+"|"+cl] = true
 			}
+		case probe.Meta == "lquery" || probe.Meta == "matfact":
+			// the routines / factorization types of the workspace-query grid: each needs a dispatch entry and
+			// must be executed at least once
+			var m struct {
+				Routines []string `json:"routines"`
+			}
+			if err := json.Unmarshal(line, &m); err != nil {
+				return fmt.Errorf("line %d: %v", in.N, err)
+			}
+			for _, r := range m.Routines {
+				if probe.Meta == "matfact" {
+					r = "mat." + r
+				} else if _, ok := ltab[r]; !ok {
+					return fmt.Errorf("line %d: the specification tabulates a workspace query for %s, which has no dispatch entry", in.N, r)
+				}
+				st.qAnnounced[r] = true
+			}
 		case line[0] == '[':
 			var fam string
 			var head []json.RawMessage
@@ -92,6 +109,14 @@ func replay(in *core.Lines, args []string, seed int64, sum *core.Summary) error 
 			if err := runLapack(raw, salt, sum, st); err != nil {
 				return fmt.Errorf("line %d: %v", in.N, err)
 			}
+		case probe.Kind == "lquery":
+			if err := runQuery(raw, salt, sum, st); err != nil {
+				return fmt.Errorf("line %d: %v", in.N, err)
+			}
+		case probe.Kind == "matfact":
+			if err := runMatFact(raw, salt, sum, st); err != nil {
+				return fmt.Errorf("line %d: %v", in.N, err)
+			}
 		default:
 			return fmt.Errorf("line %d: unknown line kind", in.N)
 		}
@@ -113,6 +138,11 @@ func replay(in *core.Lines, args []string, seed int64, sum *core.Summary) error 
 			never = append(never, strings.Replace(k, "|", ":", 1))
 		}
 	}
+	for r := range st.qAnnounced {
+		if st.routines[r] == 0 {
+			never = append(never, r+":workspace-query")
+		}
+	}
 	sort.Strings(never)
 	sum.Extra["clauses_never_sole"] = never
 	sum.Count("gonum_calls", st.calls)
@@ -127,6 +157,15 @@ func replay(in *core.Lines, args []string, seed int64, sum *core.Summary) error 
 	sum.Count("either_panicked", st.eitherPan)
 	sum.Count("no_expectation", st.unspec)
 	sum.Count("nil_operand_workspace_queries", st.nilQueries)
+	if st.queries > 0 || st.matFact > 0 {
+		sum.Count("workspace_queries", st.queries)
+		sum.Count("calls_with_queried_workspace", st.queriedCalls)
+		sum.Count("calls_with_minimum_workspace", st.minCalls)
+		sum.Count("queried_larger_than_minimum", st.queryLarger)
+		sum.Count("mat_factorizations", st.matFact)
+		sum.Count("mat_factorizations_not_ok", st.matNotOK)
+		sum.Count("largest_queried_lwork", st.maxQueried)
+	}
 	sum.Count("distinct_gonum_routines", len(st.routines))
 	sum.Count("sole_clause_pairs_hit", len(st.sole))
 	names := make([]string, 0, len(st.routines))
